@@ -569,3 +569,94 @@ Section TextE2E.
       rewrite Hp, app_length. assert (0 < blen x) by lia. unfold blen in *. lia.
   Qed.
 End TextE2E.
+
+(* ====================================================================== receiver alone, foreign senders:
+   every line may have its OWN terminator (CR, LF or CRLF), as long as the stream is not inherently
+   ambiguous (a CR-terminated line directly followed by an empty LF-terminated line reads as one CRLF).
+   For every sequence of DoInput calls, with any maxBytes and any read scripts, over such a stream:
+   what has been delivered is the decoding of the bytes consumed so far, hence a prefix of the lines,
+   and all of them once the stream has been consumed. *)
+Definition ends_cr (t : bytes) : bool := match t with [13] => true | _ => false end.
+
+Fixpoint mixed_ok (b : bool) (lts : list (bytes * bytes)) : Prop :=
+  match lts with
+  | [] => True
+  | (l, t) :: r =>
+      line_ok l /\ eol_ok t /\ ~ (b = true /\ l = [] /\ t = [LF]) /\ mixed_ok (ends_cr t) r
+  end.
+
+Definition mixed_wire (lts : list (bytes * bytes)) : bytes := flat_map (fun lt => fst lt ++ snd lt) lts.
+
+Lemma t_feed_mixed lts : forall b, mixed_ok b lts ->
+  exists b', t_feed ([], b) (mixed_wire lts) = (([], b'), map fst lts).
+Proof.
+  induction lts as [|[l t] r IH]; intros b H; cbn [mixed_wire flat_map map fst snd].
+  - exists b. reflexivity.
+  - destruct H as (Hl & Ht & Hamb & Hr).
+    destruct (IH _ Hr) as (b2 & Hf2).
+    exists b2. rewrite <- app_assoc, t_feed_app, t_feed_line by auto. cbn [app].
+    set (pcr := match l with [] => b | _ => false end).
+    assert (Hstep : t_feed (l, pcr) t = (([], ends_cr t), [l])).
+    { destruct Ht as [-> | [-> | ->]].
+      - cbn [t_feed]. unfold t_byte. cbn. reflexivity.
+      - cbn [t_feed]. unfold t_byte. cbn. reflexivity.
+      - assert (Hp : pcr = false).
+        { subst pcr. destruct l; auto. destruct b; auto. exfalso. apply Hamb. auto. }
+        rewrite Hp. cbn [t_feed]. unfold t_byte. cbn. reflexivity. }
+    unfold bytes, byte in *. rewrite (t_feed_app t (l, pcr)), Hstep. fold (mixed_wire r). unfold bytes, byte in *. rewrite Hf2. reflexivity.
+Qed.
+
+Lemma mixed_wire_nul_free lts : forall b, mixed_ok b lts -> nul_free (mixed_wire lts).
+Proof.
+  induction lts as [|[l t] r IH]; intros b H; cbn [mixed_wire flat_map fst snd]; [constructor|].
+  destruct H as (Hl & Ht & _ & Hr). apply nul_free_app; split; [|exact (IH _ Hr)].
+  apply nul_free_app; split.
+  - eapply Forall_impl; [|exact Hl]. intros a Ha. cbv beta in Ha. destruct Ha as (_ & _ & Ha). exact Ha.
+  - destruct Ht as [-> | [-> | ->]]; repeat constructor; discriminate.
+Qed.
+
+(* a sequence of DoInput calls: (maxBytes, read script) each *)
+Fixpoint t_recv_run (st : trecv) (pipe : bytes) (calls : list (N * list N)) : trecv * list (list bytes) * bytes :=
+  match calls with
+  | [] => (st, [], pipe)
+  | (maxb, scr) :: r =>
+      let '(st1, o1, p1) := t_do_input st maxb scr pipe in
+      let '(st2, o2, p2) := t_recv_run st1 p1 r in (st2, o1 ++ o2, p2)
+  end.
+
+Lemma t_recv_run_spec calls : forall st pipe st' outs pipe',
+  nul_free pipe -> (tr_cr st = true -> tr_text st = []) ->
+  t_recv_run st pipe calls = (st', outs, pipe') ->
+  exists x, pipe = x ++ pipe' /\
+            t_feed (tr_text st, tr_cr st) x = ((tr_text st', tr_cr st'), concat outs) /\
+            (tr_cr st' = true -> tr_text st' = []).
+Proof.
+  induction calls as [|[maxb scr] r IH]; intros st pipe st' outs pipe' Hn Hinv H; cbn [t_recv_run] in H.
+  - inversion H; subst. exists []. cbn. auto.
+  - destruct (t_do_input st maxb scr pipe) as [[st1 o1] p1] eqn:E1.
+    destruct (t_recv_run st1 p1 r) as [[st2 o2] p2] eqn:E2. inversion H; subst; clear H.
+    destruct (t_do_input_spec _ _ _ _ _ _ _ Hn Hinv E1) as (x1 & Hp1 & Hf1 & _).
+    assert (Hinv1 : tr_cr st1 = true -> tr_text st1 = []).
+    { apply (t_feed_inv x1 (tr_text st, tr_cr st) (tr_text st1, tr_cr st1) (concat o1)); auto. }
+    assert (Hn1 : nul_free p1) by (rewrite Hp1 in Hn; apply nul_free_app in Hn; tauto).
+    destruct (IH _ _ _ _ _ Hn1 Hinv1 E2) as (x2 & Hp2 & Hf2 & Hinv2).
+    exists (x1 ++ x2). split; [rewrite Hp1, Hp2; now rewrite app_assoc|]. split; auto.
+    rewrite t_feed_app, Hf1, Hf2, concat_app. reflexivity.
+Qed.
+
+Theorem text_mixed_terminators (lts : list (bytes * bytes)) (calls : list (N * list N)) :
+  mixed_ok false lts ->
+  let '(st', outs, pipe') := t_recv_run tr_init (mixed_wire lts) calls in
+  (exists tl, map fst lts = concat outs ++ tl) /\
+  (pipe' = [] -> concat outs = map fst lts /\ tr_text st' = []).
+Proof.
+  intros Hok.
+  destruct (t_recv_run tr_init (mixed_wire lts) calls) as [[st' outs] pipe'] eqn:E.
+  destruct (t_recv_run_spec calls tr_init _ _ _ _ (mixed_wire_nul_free lts false Hok) ltac:(discriminate) E) as (x & Hp & Hf & _).
+  destruct (t_feed_mixed lts false Hok) as (b' & Hall).
+  change (tr_text tr_init, tr_cr tr_init) with (@nil N, false) in Hf. unfold bytes, byte in *.
+  split.
+  - rewrite Hp, t_feed_app, Hf in Hall.
+    set (q := t_feed _ pipe') in Hall. destruct q as [s2 o2]. inversion Hall. eauto.
+  - intros ->. rewrite app_nil_r in Hp. subst x. rewrite Hall in Hf. inversion Hf. auto.
+Qed.
